@@ -1,8 +1,8 @@
 // C19, second deepening round: the glue around the proved core.
-//   gacc   GravityModel metadata accessors, Phi, U, W = V + Phi, Circle(lat, h, caps) for every combination of the documented masks
+//   gvacc  GravityModel metadata accessors, Phi, U, W = V + Phi, Circle(lat, h, caps) for every combination of the documented masks
 //          (Capabilities(), Capabilities(test), every member either NaN or equal to the all-capabilities circle), GravityCircle accessors,
 //          default-constructed GravityCircle / CircularEngine, DynamicalFormFactor / fraction forms in the metadata
-//   macc   MagneticModel metadata accessors (MinTime ... MaxHeight, Description ...), MagneticCircle accessors and FieldGeocentric(lon),
+//   mgacc  MagneticModel metadata accessors (MinTime ... MaxHeight, Description ...), MagneticCircle accessors and FieldGeocentric(lon),
 //          both FieldComponents overloads, default-constructed MagneticCircle
 //   fcomp  FieldComponents against its definition (long double) incl. the degenerate branches H = 0, F = 0; Lean model
 //   gzon   the normal zonal terms GravityModel subtracts (_zonal, _dzonal0) for both normalisations; Lean model of the constructor loop
@@ -82,7 +82,7 @@ static bool sameD(double a, double b) { return bits(a) == bits(b) || (std::isnan
 static bool nearU(double got, LD want, double ulps, double scale) { return std::fabs(double((LD)got - want)) <= ulps * 1.2e-16 * scale + 1e-300; }
 
 // ------------------------------------------------------------------------------------------------------------------
-// op: gacc seed norm N M dgm(hex) fl(hex) flmode(0 decimal, 1 fraction, 2 J2) lat lon h Nmax Mmax
+// op: gvacc seed norm N M dgm(hex) fl(hex) flmode(0 decimal, 1 fraction, 2 J2) lat lon h Nmax Mmax
 // ------------------------------------------------------------------------------------------------------------------
 struct GCirc { double W, g[3], T, d[3], Tp, TX, dX[3], Wc, gc[3], Vc, Gc[3], geoid, Dg01, xi, eta; };
 static void evalCircle(const GravityCircle& c, double lon, GCirc& q) {
@@ -91,7 +91,7 @@ static void evalCircle(const GravityCircle& c, double lon, GCirc& q) {
   q.Wc = c.W(lon, q.gc[0], q.gc[1], q.gc[2]); q.Vc = c.V(lon, q.Gc[0], q.Gc[1], q.Gc[2]);
   q.geoid = c.GeoidHeight(lon); c.SphericalAnomaly(lon, q.Dg01, q.xi, q.eta);
 }
-static Reg r_gacc("gacc", [](const Args& a) {
+static Reg r_gvacc("gvacc", [](const Args& a) {
   uint64_t seed = std::strtoull(a[0].c_str(), nullptr, 10); Rng r(seed * 6700417 + 3);
   EgmSpec e; e.full = toi(a[1]) == 0; e.N = toi(a[2]); e.M = toi(a[3]); double dgm = unhx(a[4]); e.fl = unhx(a[5]); int flmode = toi(a[6]);
   double lat = unhx(a[7]), lon = unhx(a[8]), h = unhx(a[9]); int Nmax = toi(a[10]), Mmax = toi(a[11]);
@@ -194,9 +194,27 @@ static Reg r_gacc("gacc", [](const Args& a) {
 });
 
 // ------------------------------------------------------------------------------------------------------------------
-// op: macc seed norm nmod ncon N M t lat lon h Nmax Mmax
+// op: gcaps caps(0..63, raw bits) hzero(0/1)  -- the capability bookkeeping against the Lean model: Capabilities() and which members return a number
 // ------------------------------------------------------------------------------------------------------------------
-static Reg r_macc("macc", [](const Args& a) {
+static Reg r_gcaps("gcaps", [](const Args& a) {
+  unsigned caps = unsigned(toi(a[0])); bool hz = toi(a[1]) != 0;
+  Rng r(4242); EgmSpec e; e.N = e.M = 4; e.NC = 2; e.MC = 1; e.GMmodel = e.GMref * (1 + 1e-5); e.file = "gcaps"; e.name = "gcaps"; e.desc = "caps"; e.date = "d"; makeEgmCoeffs(r, e);
+  std::string dir = tmpdir(); writeEgm(dir, e); std::string out;
+  std::string ex = guarded([&] {
+    GravityModel gm(e.file, dir); GravityCircle c = gm.Circle(33.0, hz ? 0.0 : 1234.5, caps); GCirc q; evalCircle(c, 17.0, q);
+    auto num3 = [](double p, const double v[3]) { bool n0 = std::isnan(p), n1 = std::isnan(v[0]), n2 = std::isnan(v[1]), n3 = std::isnan(v[2]); return (n0 == n1 && n1 == n2 && n2 == n3) ? (n0 ? 0 : 1) : 2; };
+    double an[3] = {q.Dg01, q.xi, q.eta};
+    out = std::to_string(c.Capabilities()) + " " + std::to_string(num3(q.W, q.g)) + " " + std::to_string(num3(q.Wc, q.gc)) + " " + std::to_string(num3(q.Vc, q.Gc)) + " " + std::to_string(num3(q.T, q.d)) + " " +
+      std::to_string(num3(q.TX, q.dX)) + " " + std::to_string(std::isnan(q.Tp) ? 0 : 1) + " " + std::to_string(num3(q.Dg01, an)) + " " + std::to_string(std::isnan(q.geoid) ? 0 : 1);
+  });
+  removeEgm(dir, e.file);
+  emit(ex.empty() ? out : ex);
+});
+
+// ------------------------------------------------------------------------------------------------------------------
+// op: mgacc seed norm nmod ncon N M t lat lon h Nmax Mmax
+// ------------------------------------------------------------------------------------------------------------------
+static Reg r_mgacc("mgacc", [](const Args& a) {
   uint64_t seed = std::strtoull(a[0].c_str(), nullptr, 10); Rng r(seed * 15485863 + 11);
   WmmSpec w; w.full = toi(a[1]) == 0; w.nmod = toi(a[2]); w.ncon = toi(a[3]); w.N = toi(a[4]); w.M = toi(a[5]);
   double t = unhx(a[6]), lat = unhx(a[7]), lon = unhx(a[8]), h = unhx(a[9]); int Nmax = toi(a[10]), Mmax = toi(a[11]);
